@@ -125,6 +125,9 @@ func (p *Program) VerifyFunc(c *Contract) (res *FuncResult) {
 	}
 	preT := And(pre...)
 	st.assume(preT)
+	for _, a := range c.Assume {
+		st.assume(env.termBool(a.Expr))
+	}
 	ex.pushFrame(st, fn, bind, args, nil, 0)
 	ex.Run(st)
 	res.Paths = len(ex.Exits)
@@ -152,6 +155,7 @@ func (p *Program) VerifyFunc(c *Contract) (res *FuncResult) {
 			q.Funs = append(q.Funs, ex.Funs[n])
 		}
 		q.Asserts = append(q.Asserts, ex.Assumes...)
+		q.Asserts = append(q.Asserts, ex.Axioms...)
 		q.Asserts = append(q.Asserts, asserts...)
 		o := &Obligation{Func: c.Key, Short: name, Name: c.Key + "#" + name, Tags: tags, Expect: expect, Query: q,
 			Mode: c.Mode, Inputs: ex.Inputs, Clause: clause, Bounded: c.Bounded, Contract: c}
@@ -208,7 +212,14 @@ func (p *Program) VerifyFunc(c *Contract) (res *FuncResult) {
 			penv := ex.postEnv(env, e, fn)
 			penv.bindLets(c, true)
 			t := penv.termBool(en.Expr)
-			alts = append(alts, And(pcOf(e), Not(t)))
+			var lem []*Term
+			for _, a := range c.AssumePost {
+				lem = append(lem, penv.termBool(a.Expr))
+			}
+			alts = append(alts, And(pcOf(e), And(lem...), Not(t)))
+		}
+		if en.Src == "true" {
+			continue // schema slot left empty for this type
 		}
 		mk(fmt.Sprintf("post.%d", i+1), en.Tags, "unsat", "ensures "+en.Src, Or(alts...))
 	}
@@ -315,6 +326,19 @@ func (p *Program) VerifyFunc(c *Contract) (res *FuncResult) {
 		}
 		mk("frame.big", nil, "unsat", "big.Int writes only to fresh values or modifies targets", Or(alts...))
 	}
+	// frame of the ghost meter: a function that meters memory must say so (its callers rely on it)
+	if !declaresGhost(c, "metered") {
+		var alts []*Term
+		for _, e := range normal {
+			g := e.St.Ghost["metered"]
+			if g != nil && !(g.IsConst() && g.Val.Sign() == 0) {
+				alts = append(alts, And(pcOf(e), Neq(g, IntC(0))))
+			}
+		}
+		if len(alts) > 0 {
+			mk("frame.ghost.metered", nil, "unsat", "memory is metered only by functions that declare modifies ghost(\"metered\")", Or(alts...))
+		}
+	}
 	return
 }
 
@@ -352,7 +376,18 @@ func (ev *SpecEnv) modRef(m Clause) *Term {
 	return bigRefOfModifies(ev, m.Expr)
 }
 
+// declaresGhost: does the contract list ghost("name") under modifies
+func declaresGhost(c *Contract, name string) bool {
+	for _, m := range c.Modifies {
+		if strings.Contains(m.Src, "ghost(\""+name+"\")") {
+			return true
+		}
+	}
+	return false
+}
+
 func (ex *Exec) initGhosts(st *State, c *Contract) {
+	st.Ghost["metered"] = IntC(0)
 	if g, ok := c.Options["ghost"]; ok {
 		for _, n := range strings.Fields(strings.ReplaceAll(g, ",", " ")) {
 			st.Ghost[n] = IntC(0)
